@@ -22,9 +22,19 @@ type psExec struct {
 	NoProg  bool
 	Print   uint64
 	Readers []*sim.SimReader
+	// Trail lists every call's error (histories that go on after a PostScript
+	// error, see runPSHistory).
+	Trail string
 }
 
 func runPS(in *postscript.Interpreter, src []byte, sch sim.Schedule, cuts []int, fault sim.Fault, tape *sim.Tape) *psExec {
+	return runPSHistory(in, src, sch, cuts, fault, tape, false)
+}
+
+// runPSHistory is runPS with the option to go on with the next Execute call
+// after a call that failed with a PostScript error (the interpreter instance
+// stays usable).  The budget error and ErrNoPostScript always end the history.
+func runPSHistory(in *postscript.Interpreter, src []byte, sch sim.Schedule, cuts []int, fault sim.Fault, tape *sim.Tape, goOn bool) *psExec {
 	res := &psExec{In: in, Print: 14695981039346656037}
 	pieces := splitAt(src, cuts)
 	off := 0
@@ -54,7 +64,10 @@ func runPS(in *postscript.Interpreter, src []byte, sch sim.Schedule, cuts []int,
 		res.Print = (res.Print ^ r.Fingerprint()) * 1099511628211
 		if err != nil {
 			res.Err = err
-			break
+			res.Trail += fmt.Sprintf("[call %d: %s]", res.Calls, err.Error())
+			if !goOn || err == postscript.ErrExecutionLimitExceeded || err == postscript.ErrNoPostScript || err == sim.ErrInjected {
+				break
+			}
 		}
 		off += len(piece)
 	}
